@@ -284,9 +284,12 @@ pub fn run(args: &Args) -> i32 {
     if thorough {
         uris.extend(["https://xn--exmple-cua.com/", "https://a-b.example.com:8443/p?q", "https://[2001:db8::1]/", "http://example.com/", "https://LOCALHOST/"]);
     }
-    let mut snis: Vec<Option<&str>> = vec![None, Some("example.com"), Some("Example.COM"), Some("other.test"), Some("localhost")];
+    // (a server name that is an address literal: TLS itself never carries one, but the layer compares whatever the
+    // connection information reports, and a bracketed literal has colons that are not a port separator)
+    hosts.push(Some("[::2]"));
+    let mut snis: Vec<Option<&str>> = vec![None, Some("example.com"), Some("Example.COM"), Some("other.test"), Some("localhost"), Some("[::1]")];
     if thorough {
-        snis.extend([Some("xn--exmple-cua.com"), Some("a-b.example.com"), Some("LOCALHOST"), Some("example.org")]);
+        snis.extend([Some("[2001:db8::1]"), Some("127.0.0.1"), Some("xn--exmple-cua.com"), Some("a-b.example.com"), Some("LOCALHOST"), Some("example.org")]);
     }
     let mut evaluations = 0u64;
     let mut classes = BTreeSet::new();
